@@ -353,6 +353,7 @@ theorem fn_step (s : Svc) (e : Ev) (hc : Core s) (hf : Fn s) : Fn (step s e) := 
     · exact same _ rfl rfl rfl rfl rfl rfl (fun h => h) rfl rfl rfl
   | removeListener id => exact same _ rfl rfl rfl rfl rfl rfl (fun h => h) rfl rfl rfl
   | deliver id => exact same _ rfl rfl rfl rfl rfl rfl (fun h => h) rfl rfl rfl
+  | deliverEnd id => exact same _ rfl rfl rfl rfl rfl rfl (fun h => h) rfl rfl rfl
 
 /-- both invariants hold in every reachable state. -/
 theorem inv_run (a b c : Bool) (evs : List Ev) : Core (run (init a b c) evs) ∧ Fn (run (init a b c) evs) := by
